@@ -397,6 +397,14 @@ func TestC15Race(t *testing.T) {
 							pat = x ^ x>>13
 						}
 					}
+					if i%11 == 5 {
+						// names nobody registered: refused, from any goroutine, without disturbing anyone
+						if uf, uerr := of.FindFieldHeaderByName(fmt.Sprintf("NXM_NX_REG%d", 16+int(x>>40)%200), masked); uerr == nil {
+							mu.Lock()
+							bad = append(bad, fmt.Sprintf("goroutine %d: an unregistered name resolved to %+v", gi, hdrOf(uf)))
+							mu.Unlock()
+						}
+					}
 					f, err := of.FindFieldHeaderByName(string(sp), masked)
 					if err != nil {
 						continue
